@@ -435,7 +435,9 @@ func runCase(t *testing.T, transport, op, point, cause string) (line string) {
 func TestC09(t *testing.T) {
 	err := lp.FileLoop(func(f []string, w *bufio.Writer) {
 		if len(f) == 5 && f[0] == "case" {
+			lp.PoolTraceBegin()
 			fmt.Fprintln(w, runCase(t, f[1], f[2], f[3], f[4]))
+			lp.PoolTraceEnd("c09 " + strings.Join(f[1:], " "))
 			return
 		}
 		fmt.Fprintln(w, "bad-op")
